@@ -80,10 +80,10 @@ theorem justified_is_processed (h : trace w entries fuel = some s) (t : Task) (h
     have := (sv _ ih).2
     simp only [hd, hp, hq] at this
     exact dn _ this.2
-  | nameStar _ hd hp hq hn hx ih =>
+  | nameStar _ hd hp hq hsp ih =>
     have := (sv _ ih).2
-    simp only [hd, hp, hq] at this
-    exact dn _ (this hn _ hx).2
+    simp only [hd, hp, hq, hsp] at this
+    exact dn _ this.2
   | localDecl _ hd ih =>
     have := sv _ ih
     simp only [Served, hd] at this
